@@ -57,6 +57,15 @@ CLAIMS["C01"] = ("sibling/exhaustiveness analysis over all Node implementations 
  "Trusted: go/ssa + go/types. Not covered: equality of contents and order, Length vs iteration agreement as numbers, AssignNode/Copy content fidelity, size-hint independence, types with dynamic Kind().",
  "DESIGN.md section 3, C01")
 
+CLAIMS["C09"] = ("call-graph reachability in the assembler's local closure (static + VTA-monomorphic interface calls), error-carrier shape discovery, must-pass-through (kind gate, nil tests)",
+ "Structural necessary conditions of 'typed builders accept exactly conforming data' over every assembler implementation (basicnode, bindnode both levels, generated demo): both key routes of every map/struct assembler can reject a repeated key; union assemblers consult their already-set member before a second entry; Finish of every struct assembler can report missing required fields; TypeStruct.Field results are nil-tested; no forced assertion on a value that may be an error-carrying assembler; every reflect mutation in scalar Assign* is behind the passed kind check. Not acceptance <=> conformance in general.",
+ "Trusted: go/ssa + go/types, VTA only to resolve single-callee interface calls. Not covered: conformance in general, error quality, at which call a rejection is reported.",
+ "DESIGN.md section 3, C09")
+CLAIMS["C12"] = ("typestate extraction by abstract interpretation of the explicit state enum (path-sensitive in that field) compared with the transcribed contract automaton; commit-before-reject path rule; client typestate over MapAssembler users",
+ "Structural necessary conditions of 'assemblers enforce their protocol': the state machine of basicnode's map and list assemblers (and key/value assemblers) equals the contract automaton method by method and state by state, including clean rejection of a repeated key back to the accept-keys state; nothing is committed on any path that returns ErrRepeatedMapKey; both key routes can reject repeats (shared with C09); bindnode assigns always reach the finish hook; entry slots are fresh; library clients follow AssembleKey -> Assign -> AssembleValue on every path. Not exactness of results in general.",
+ "Trusted: go/ssa + go/types, the contract automaton transcribed from datamodel/nodeBuilder.go and HACKME_builderBehaviors.md. Not covered: bindnode has no explicit state machine to extract; generated assemblers' automata.",
+ "DESIGN.md section 3, C12")
+
 NOT_APPLICABLE = {
  "C13": "concerns the output of running the code generator on arbitrary schemas and the run-time equivalence of two engines; the generator's logic lives in text/template strings, so no typed program exists to analyse before execution (DESIGN.md section 4)",
 }
